@@ -77,6 +77,9 @@ const LOCK_FILE_NAME: &str = ".state.lock";
 /// File holding the per-directory record integrity (HMAC) key
 const KEY_FILE_NAME: &str = ".state.key";
 
+/// Key of the marker record that commits the batch records preceding it
+const BATCH_COMMIT_KEY: &str = "__batch_commit__";
+
 /// WAL file extension
 const WAL_EXTENSION: &str = "wal";
 
@@ -707,8 +710,10 @@ impl<T: Serialize + for<'de> Deserialize<'de> + Clone + PartialEq + Send + Sync 
             *counter
         };
 
-        // Clone current state for rollback
-        let backup_state = {
+        // Work on a copy: the live state changes only once the whole batch,
+        // including its commit marker, is in the log (log before apply). A failing
+        // closure or a failing log write therefore leaves memory untouched.
+        let initial_state = {
             let state = self.state.read().map_err(|_| {
                 P2PError::Storage(StorageError::LockPoisoned(
                     "read lock failed".to_string().into(),
@@ -716,76 +721,84 @@ impl<T: Serialize + for<'de> Deserialize<'de> + Clone + PartialEq + Send + Sync 
             })?;
             state.clone()
         };
+        let mut new_state = initial_state.clone();
+        update_fn(&mut new_state)?;
 
-        // Apply updates
-        let changes = {
+        // Calculate changes
+        let mut changes: Vec<(String, Option<T>)> = Vec::new();
+        for (key, value) in new_state.iter() {
+            if !initial_state.contains_key(key) || initial_state[key] != *value {
+                changes.push((key.clone(), Some(value.clone())));
+            }
+        }
+        for key in initial_state.keys() {
+            if !new_state.contains_key(key) {
+                changes.push((key.clone(), None));
+            }
+        }
+        if changes.is_empty() {
+            return Ok(());
+        }
+
+        // Write the batch and its commit marker as one contiguous group
+        {
+            let mut entries = Vec::with_capacity(changes.len() + 1);
+            for (key, value) in &changes {
+                let serialized_value = value
+                    .as_ref()
+                    .map(|v| postcard::to_stdvec(v))
+                    .transpose()
+                    .map_err(|e| {
+                    P2PError::Storage(StorageError::Database(
+                        format!("Failed to serialize value: {e}").into(),
+                    ))
+                })?;
+                entries.push(self.create_wal_entry(
+                    transaction_id,
+                    TransactionType::Batch,
+                    key.clone(),
+                    serialized_value,
+                )?);
+            }
+            entries.push(self.create_wal_entry(
+                transaction_id,
+                TransactionType::Checkpoint,
+                BATCH_COMMIT_KEY.to_string(),
+                None,
+            )?);
+
+            let mut writer = self.wal_writer.lock().map_err(|_| {
+                P2PError::Storage(StorageError::LockPoisoned(
+                    "mutex lock failed".to_string().into(),
+                ))
+            })?;
+            for entry in &entries {
+                writer.write_entry(entry)?;
+            }
+        }
+
+        // Apply to the live state
+        {
             let mut state = self.state.write().map_err(|_| {
                 P2PError::Storage(StorageError::LockPoisoned(
                     "write lock failed".to_string().into(),
                 ))
             })?;
-            let initial_state = state.clone();
-
-            // Apply update function
-            match update_fn(&mut state) {
-                Ok(()) => {
-                    // Calculate changes
-                    let mut changes = Vec::new();
-
-                    // Find updates and inserts
-                    for (key, value) in state.iter() {
-                        if !initial_state.contains_key(key) || initial_state[key] != *value {
-                            changes.push((key.clone(), Some(value.clone())));
-                        }
+            for (key, value) in &changes {
+                match value {
+                    Some(v) => {
+                        state.insert(key.clone(), v.clone());
                     }
-
-                    // Find deletes
-                    for key in initial_state.keys() {
-                        if !state.contains_key(key) {
-                            changes.push((key.clone(), None));
-                        }
+                    None => {
+                        state.remove(key);
                     }
-
-                    changes
-                }
-                Err(e) => {
-                    // Rollback on error
-                    *state = backup_state;
-                    return Err(e);
                 }
             }
-        };
+        }
 
-        // Write batch to WAL
-        for (key, value) in changes {
-            let serialized_value = value
-                .as_ref()
-                .map(|v| postcard::to_stdvec(v))
-                .transpose()
-                .map_err(|e| {
-                    P2PError::Storage(StorageError::Database(
-                        format!("Failed to serialize value: {e}").into(),
-                    ))
-                })?;
-
-            let wal_entry = self.create_wal_entry(
-                transaction_id,
-                TransactionType::Batch,
-                key.clone(),
-                serialized_value,
-            )?;
-
-            {
-                let mut writer = self.wal_writer.lock().map_err(|_| {
-                    P2PError::Storage(StorageError::LockPoisoned(
-                        "mutex lock failed".to_string().into(),
-                    ))
-                })?;
-                writer.write_entry(&wal_entry)?;
-            }
-
-            // Notify listeners
-            self.notify_listeners(&key, value.as_ref()).await;
+        // Notify listeners
+        for (key, value) in &changes {
+            self.notify_listeners(key, value.as_ref()).await;
         }
 
         Ok(())
@@ -1062,6 +1075,9 @@ impl<T: Serialize + for<'de> Deserialize<'de> + Clone + PartialEq + Send + Sync 
         let mut entries_recovered = 0u64;
         let mut buffer = Vec::new();
         let file_len = file.metadata().map(|m| m.len()).unwrap_or(0);
+        // Batch records take effect only when their commit marker follows; a batch
+        // cut short by a crash (or by anything else in between) is dropped whole.
+        let mut pending_batch: Option<(u64, Vec<(String, Option<Vec<u8>>)>)> = None;
 
         loop {
             // Read entry size
@@ -1132,6 +1148,76 @@ impl<T: Serialize + for<'de> Deserialize<'de> + Clone + PartialEq + Send + Sync 
                 continue;
             }
 
+            // Update transaction counter (also for records of an uncommitted batch)
+            {
+                let mut counter = self.transaction_counter.lock().map_err(|_| {
+                    P2PError::Storage(StorageError::LockPoisoned(
+                        "mutex lock failed".to_string().into(),
+                    ))
+                })?;
+                if entry.transaction_id > *counter {
+                    *counter = entry.transaction_id;
+                }
+            }
+
+            // Batch records are buffered until their commit marker arrives
+            if entry.transaction_type == TransactionType::Batch {
+                match pending_batch.as_mut() {
+                    Some((id, items)) if *id == entry.transaction_id => {
+                        items.push((entry.key, entry.value));
+                    }
+                    _ => {
+                        pending_batch =
+                            Some((entry.transaction_id, vec![(entry.key, entry.value)]));
+                    }
+                }
+                continue;
+            }
+            let committed_batch = match pending_batch.take() {
+                Some((id, items))
+                    if entry.transaction_type == TransactionType::Checkpoint
+                        && entry.key == BATCH_COMMIT_KEY
+                        && id == entry.transaction_id =>
+                {
+                    Some(items)
+                }
+                _ => None,
+            };
+            if let Some(items) = committed_batch {
+                let mut decoded: Vec<(String, Option<T>)> = Vec::with_capacity(items.len());
+                let mut intact = true;
+                for (key, value_data) in items {
+                    match value_data {
+                        Some(data) => match postcard::from_bytes::<T>(&data) {
+                            Ok(value) => decoded.push((key, Some(value))),
+                            Err(_) => intact = false,
+                        },
+                        None => decoded.push((key, None)),
+                    }
+                }
+                if intact {
+                    let mut state_guard = self.state.write().map_err(|_| {
+                        P2PError::Storage(StorageError::LockPoisoned(
+                            "write lock failed".to_string().into(),
+                        ))
+                    })?;
+                    for (key, value) in decoded {
+                        match value {
+                            Some(v) => {
+                                state_guard.insert(key, v);
+                            }
+                            None => {
+                                state_guard.remove(&key);
+                            }
+                        }
+                        entries_recovered += 1;
+                    }
+                } else {
+                    stats.entries_failed += 1;
+                }
+                continue;
+            }
+
             // Apply entry to state
             match entry.transaction_type {
                 TransactionType::Upsert | TransactionType::Batch => {
@@ -1163,18 +1249,6 @@ impl<T: Serialize + for<'de> Deserialize<'de> + Clone + PartialEq + Send + Sync 
                 }
                 TransactionType::Checkpoint => {
                     // Checkpoint marker, no action needed
-                }
-            }
-
-            // Update transaction counter
-            {
-                let mut counter = self.transaction_counter.lock().map_err(|_| {
-                    P2PError::Storage(StorageError::LockPoisoned(
-                        "mutex lock failed".to_string().into(),
-                    ))
-                })?;
-                if entry.transaction_id > *counter {
-                    *counter = entry.transaction_id;
                 }
             }
         }
